@@ -638,6 +638,8 @@ def install(w):
         return VOpaque("callback_result")
     B["callback"] = b_callback
 
+    B["async_def"] = lambda it, f, args, kw, node: VOpaque("awaitable")
+
     # ------------------------------------------------------------------ typing.cast
     B["py:cast"] = lambda it, f, args, kw, node: args[1]
 
